@@ -1474,7 +1474,7 @@ Qed.
 Theorem flatten_result_cells s p gs hdr s1 :
   sinv s -> p < ss_nf s -> s_create s p = (s1, SOk) ->
   let s' := s_flatten s p (FlatOk gs hdr) in
-  lookup (ss_store s') (Gen (ss_nid s)) = Some (ss_nf s) /\
+  ss_store s' = (Gen (ss_nid s), ss_nf s) :: ss_store s /\
   (forall q, In q (all_bats (ss_file s' (ss_nf s))) -> ss_nb s <= q) /\
   lkept s s'.
 Proof.
@@ -1489,10 +1489,10 @@ Proof.
   set (s3 := mkss (ss_store s2) (hupd (ss_file s2) (ss_nf s2) g) (ss_bat s2) (ss_ent s2) (ss_nid s2) (ss_nf s2 + 1) (ss_nb s2) (ss_ne s2) (ss_nfam s2)).
   pose proof (hsame_create s3 (ss_nf s2)) as [H4a H4b].
   destruct (s_create_foot s3 (ss_nf s2)) as [X1 X2 X3 X4 X5 X6 X7 X8 X9 X10 X11].
-  cbn [set_store ss_store ss_file lookup].
-  rewrite H4b. cbn [s3 ss_nid]. rewrite H2b, H1b. rewrite id_eqb_refl.
-  split; [f_equal; congruence|].
+  cbn [set_store ss_store ss_file].
+  rewrite H4b, H4a. cbn [s3 ss_nid ss_store]. rewrite H2b, H1b, H2a, H1a.
   assert (NF : ss_nf s2 = ss_nf s) by congruence.
+  split; [now rewrite NF|].
   split.
   - rewrite <- NF. destruct X9 as [c ->]. cbn [s3 ss_file]. rewrite hupd_eq. unfold all_bats. cbn [fset_ctl fo_bats fo_iats g].
     intros q Q. specialize (F q Q). lia.
@@ -1509,4 +1509,42 @@ Proof.
   destruct (flatten_result_cells s p gs hdr s1 I P C) as [_ [F [_ [_ K]]]].
   specialize (F q Q1). destruct (K p' P') as [K1 K2]. unfold all_bats in Q2. rewrite K1, K2 in Q2.
   destruct (reach_bat s p' q I P' Q2). lia.
+Qed.
+
+(* After POST /files/{id}/flatten stored its result under g: a request addressed to g whose handler
+   only marshals / validates (get, validate, batch lookups), edits the ID map or g's own Batches
+   list (delete, add batch, delete batch) or runs File.Create on g (contents, build) leaves
+   every other file object as it is — the file g was made from included. *)
+Theorem plain_requests_on_flattened_file s i p gs hdr s1 r j p' :
+  sinv s -> lookup (ss_store s) i = Some p -> s_create s p = (s1, SOk) ->
+  let s' := fst (sstep s (SFlatten i (FlatOk gs hdr))) in
+  target r = Some (Gen (ss_nid s)) ->
+  (rclass_of r = KPure \/ rclass_of r = KEdit \/ rclass_of r = KCreate) ->
+  lookup (ss_store s') j = Some p' -> p' <> ss_nf s ->
+  shows (fst (sstep s' r)) j = shows s' j.
+Proof.
+  intros I L C s' T K Lj N.
+  assert (P : p < ss_nf s) by (apply (inv_store s I i p); now apply lookup_In).
+  assert (E : s' = s_flatten s p (FlatOk gs hdr)) by (unfold s'; cbn [sstep]; now rewrite L).
+  destruct (flatten_result_cells s p gs hdr s1 I P C) as [ST [F K']]. rewrite <- E in ST, F, K'.
+  pose proof (sinv_step s (SFlatten i (FlatOk gs hdr)) I) as I'. fold s' in I'.
+  assert (Lg : lookup (ss_store s') (Gen (ss_nid s)) = Some (ss_nf s)) by (rewrite ST; cbn [lookup]; now rewrite id_eqb_refl).
+  assert (P' : p' < ss_nf s).
+  { rewrite ST in Lj. cbn [lookup] in Lj. destruct (id_eqb (Gen (ss_nid s)) j).
+    - exfalso. apply N. now inversion Lj.
+    - apply (inv_store s I j p'). now apply lookup_In. }
+  destruct K as [K|[K|K]].
+  - apply (pure_requests_change_nothing s' r j p' I' Lj). now right.
+  - apply (edit_stays_in_object s' r (Gen (ss_nid s)) (ss_nf s) j p' I' K T Lg Lj N).
+  - apply (create_stays_in_batches s' r (Gen (ss_nid s)) (ss_nf s) j p' I' K T Lg Lj N).
+    rewrite E. apply (flatten_result_shares_no_batch s p gs hdr s1 p' I P C P').
+Qed.
+
+(* the file control File.Create builds is C05's *)
+Lemma sumc_sumb f bs : sumc f (map Offsets.b_ctl bs) = Offsets.sumb (fun b => f (Offsets.b_ctl b)) bs.
+Proof. induction bs as [|b r IH]; simpl; [reflexivity|]. now rewrite IH. Qed.
+
+Lemma fctl_of_file_control bs : fctl_of (map Offsets.b_ctl bs) = Offsets.file_control bs.
+Proof.
+  unfold fctl_of, Offsets.file_control. rewrite map_length, !sumc_sumb. reflexivity.
 Qed.
